@@ -205,10 +205,17 @@ def run():
     v = np.arange(len(ph), dtype=float)
     m = []
     for cache in (True, False):
-        C = emd.cycles.Cycles(ph, use_cache=cache)
-        C.compute_cycle_metric('s', v, np.sum, mode='augmented')
-        m.append(C.metrics['s'])
-    if not np.array_equal(m[0], m[1], equal_nan=True):
+        try:
+            C = emd.cycles.Cycles(ph, use_cache=cache)
+            C.compute_cycle_metric('s', v, np.sum, mode='augmented')
+            m.append(np.asarray(C.metrics['s'], float))
+        except Exception as e:
+            m.append(np.array([-99.0]))
+            ctx.violation('C15: augmented metric on the 15-sample probe raised %s: %s (use_cache=%s)' % (type(e).__name__, e, cache),
+                          {'class': 'augmented_metric_raises', 'use_cache': cache})
+    if m[0].shape != m[1].shape:
+        ctx.violation('C15: augmented metric has %d entries with the slice cache and %d without' % (len(m[0]), len(m[1])), {'class': 'cache_discrepancy_shape'})
+    elif not np.array_equal(m[0], m[1], equal_nan=True):
         differ = [int(i) for i in np.where(~((m[0] == m[1]) | (np.isnan(m[0]) & np.isnan(m[1]))))[0]]
         ctx.violation('C15: augmented metric differs with the slice cache on cycles %s (previous cycle non-monotonic)' % differ,
                       {'class': 'augmented_cache_discrepancy_on_ambiguous_previous_cycle' if differ == [2] else 'cache_discrepancy', 'cycles': differ})
